@@ -14,6 +14,7 @@ pub enum Effect {
     Shutdown,                                // transport writer shutdown attempted
     Drew { pkt: u32, sizes: Seq<i32> },      // padding sizes drawn for session packet `pkt`
     HeartbeatSeen,                           // last_received refreshed
+    ClockRead { t: u64 },                    // Instant::now() returned t
     DefaultSet { raw: Seq<u8> },              // PaddingFactory::update_default(raw) succeeded: raw is the process-wide default from now on
     Submit { frame: FrameS },                // ghost bookkeeping: a frame accepted by write_frame (its wire effect is write_frame's own postcondition)
 }
@@ -166,9 +167,20 @@ impl Duration {
     #[verifier::external_body]
     pub fn from_secs(s: u64) -> (r: Duration) { Duration { ms: 0 } }
 }
-pub struct Instant { pub t: nat }
+pub struct Instant { pub t: u64 }   // milliseconds on the monotonic clock
 impl Instant {
-    #[verifier::external_body] pub fn now() -> (r: Instant) { unimplemented!() }
+    // the monotonic clock, read: the value is recorded in the effect log
+    #[verifier::external_body] pub fn now(fx: &mut Ghost<Seq<Effect>>) -> (r: Instant) ensures final(fx)@ == old(fx)@.push(Effect::ClockRead { t: r.t }) { unimplemented!() }
+    // now - earlier, zero when `earlier` is in the future
+    #[verifier::external_body]
+    pub fn saturating_duration_since(&self, earlier: Instant) -> (r: Duration)
+        ensures r.ms == (if self.t >= earlier.t { self.t - earlier.t } else { 0 })
+    { unimplemented!() }
+}
+impl Clone for Instant { #[verifier::external_body] fn clone(&self) -> (r: Self) ensures r == *self { unimplemented!() } }
+impl Copy for Instant {}
+impl Duration {
+    pub fn vx_gt(&self, o: &Duration) -> (r: bool) ensures r == (self.ms > o.ms) { self.ms > o.ms }
 }
 pub mod time {
     use super::*;
